@@ -743,7 +743,7 @@ func check(h *hist) (vs []viol, stats map[string]int) {
 	// ---- completion ------------------------------------------------------------------
 	stats["completions"] = len(completions)
 	if len(completions) == 0 {
-		add("completion-never-ran", "every message was answered but the login-completion step never ran")
+		add("completion-never-ran", "the history quiesced (every message the client could see was answered) but the login-completion step never ran")
 	} else {
 		c1 := completions[0]
 		if c1 < lefCall {
@@ -920,9 +920,7 @@ func TestC13(t *testing.T) {
 					return
 				}
 				sp := genSpec(seeds[i])
-				if workers == 1 {
-					r.LogCase(sp)
-				}
+				r.LogCase(sp) // with several workers: one of the cases in flight
 				var h *hist
 				ok, pv := lib.Returns(30*time.Second, func() { h = runHistory(sp) })
 				r.Eval(1)
